@@ -63,9 +63,11 @@ def Clause.name : Clause → String
   | .grantNeedsMatch => "grant_needs_matching_permission"
   | .orderIndependent => "result_independent_of_visit_order"
 
-def isPermissionError : Except Err (List Obj) → Bool
-  | .error .permission => true
-  | _ => false
+/-- "rejected": the request failed.  Which error object or message the code uses for it is not part of the
+    property (the model's `Err.permission` is finer than what is observed). -/
+def isRejected : Except Err (List Obj) → Bool
+  | .error _ => true
+  | .ok _ => false
 
 def logEmpty : Option (List Access) → Bool
   | none => true
@@ -83,7 +85,7 @@ def specQuery (u : User) (qd : QD) (q : Query) (inv : Inventory) (obs : Obs) : O
   if qd.permission == "" then none          -- the request requires no permission: nothing to enforce
   else if !someMatch u qd.permission then
     -- rejected, and before any object was looked at
-    if isPermissionError obs.result && logEmpty obs.log then none else some .rejectedFirst
+    if isRejected obs.result && logEmpty obs.log then none else some .rejectedFirst
   else match obs.result with
     | .error _ => none
     | .ok objs =>
